@@ -149,7 +149,15 @@ impl<'a> SpannedDiagnosticFormatter<'a> {
             } else {
                 // Otherwise set next span to start at the beginning of the next line.
                 out.push('\n');
-                span = Span::new(line_start_byte + source_line.len() + 1, span.end())
+                // `lines()` strips a trailing "\r\n" as well as a "\n": skip the terminator this
+                // line really had.
+                let line_end_byte = line_start_byte + source_line.len();
+                let nl_len = if self.src[line_end_byte..].starts_with("\r\n") {
+                    2
+                } else {
+                    1
+                };
+                span = Span::new(line_end_byte + nl_len, span.end())
             }
         }
 
